@@ -35,6 +35,10 @@ def _family(K, g, name, batch, n, dt):
     def one(i):
         if name in ("uniform", "geometric", "clustered"):
             return K.spd(g, (), n, name, 100.0, torch.float64).clone()
+        if name == "tiny":  # entries far below 1: the early-stop test must be relative to the largest diagonal entry
+            return 1e-3 * K.spd(g, (), n, "geometric", 100.0, torch.float64).clone()
+        if name == "huge":
+            return 1e4 * K.spd(g, (), n, "uniform", 100.0, torch.float64).clone()
         if name == "lowrank":  # numerically low rank: rank r plus 1e-10 * I
             r = max(1, min(n - 1, 2 + i)) if n > 1 else 1
             B = K.zoo.rn(g, n, r)
@@ -151,6 +155,7 @@ def rtc_pivchol(dtname, fams, tier):
             if tier == "quick" and n > 27 and batch == (1,):
                 continue
             seed += 1
+            torch.set_default_dtype(torch.float64 if (seed % 2 == 0 and dt == torch.float32) else torch.float32)  # default dtype != operator dtype in half of the cases (one OS process per unit: no restore needed)
             g = K.zoo.gen(50000 + seed)
             A = _family(K, g, fam, batch, n, dt).to(dt)
             A64 = A.double()
@@ -331,6 +336,7 @@ def rtc_precond(dtname, tier):
             seed += 1
             if tier == "quick" and (seed % 2) and n > 5:
                 continue
+            torch.set_default_dtype(torch.float64 if (seed % 2 == 0 and dt == torch.float32) else torch.float32)  # default dtype != operator dtype in half of the cases (one OS process per unit: no restore needed)
             g = K.zoo.gen(60000 + seed)
             kb, nbatch = batch, batch
             if nk.startswith("broadcast_noise_batch"):  # kernel unbatched, noise batched
@@ -435,7 +441,7 @@ def rtc_units(tier):
     M = "contracts.rtc_C10"
     us = []
     for dtn in ("f64", "f32"):
-        for fams in (["uniform", "geometric", "clustered"], ["lowrank", "lowrank_exact", "graded"], ["rbf", "ties", "identity", "permuted"]):
+        for fams in (["uniform", "geometric", "clustered"], ["lowrank", "lowrank_exact", "graded", "tiny"], ["rbf", "ties", "identity", "permuted", "huge"]):
             us.append(Unit(f"{PID}/rtc/pivchol[{dtn},{'+'.join(fams)}]", M, "rtc_pivchol", (dtn, fams, tier), engine="rtc", timeout_s=1500))
         us.append(Unit(f"{PID}/rtc/precond[{dtn}]", M, "rtc_precond", (dtn, tier), engine="rtc", timeout_s=1500))
     us.append(Unit(f"{PID}/rtc/pivchol_mixed", M, "rtc_pivchol_mixed", (tier,), engine="rtc", timeout_s=900))
@@ -453,7 +459,7 @@ RTC_META = {
                    "(L L^T + D)^-1, SPD, logdet tight, returned operator densifies to L L^T + D, switched off by the settings) against dense float64 oracles",
     "assumptions": ["float64 eigvalsh / inv / slogdet of torch are the oracle", "the oracle L for the preconditioner is a separate pivoted_cholesky call on the kernel alone (itself under the contracts above)",
                     "operators with an approximate _approx_diagonal (InterpolatedLinearOperator) are outside the PSD zoo and not exercised"],
-    "families": "PSD families: uniform/geometric/clustered spectra, numerically and exactly low rank (members of different rank), unit-diagonal RBF, "
+    "families": "PSD families: uniform/geometric/clustered spectra, numerically and exactly low rank (members of different rank), unit-diagonal RBF, tiny (1e-3) and huge (1e4) scalings, "
                 "constant-diagonal ties, identity, graded diagonals, batches of permuted copies (different pivots per member), mixed-rank batches, "
                 "exactly singular integer matrices; sizes 1..64; batch shapes (),(2,),(1,),(2,3); ranks 1..n+1 (all for n<=8 quick / all sizes thorough); "
                 "error_tol None/0.3/1e-10 with preconditioner_tolerance 1e-3/5e-2; all PSD zoo classes; noise: ConstantDiag, constant values, per element, "
